@@ -458,7 +458,7 @@ foot = 12 * inch
 @end
 """.strip().splitlines()
 
-HEV = [("fork",), ("A", "define", "foo = 3 * inch"), ("B", "define", "bar = 5 * inch"), ("B", "define", "foo = 7 * inch"), ("A", "enable", "R"), ("B", "enable", "R"), ("A", "disable"), ("A", "system", None), ("B", "system", None),
+HEV = [("fork",), ("A", "define", "foo = 3 * inch"), ("B", "define", "bar = 5 * inch"), ("B", "define", "foo = 7 * inch"), ("B", "define", "yard = 5 * foot"), ("A", "define", "yard = 4 * foot"), ("A", "enable", "R"), ("B", "enable", "R"), ("A", "disable"), ("A", "system", None), ("B", "system", None),
        ("A", "lookup", "kilofoot"), ("B", "lookup", "kilofoot"), ("A", "q"), ("B", "q")]
 
 
